@@ -199,3 +199,12 @@ Theorem C09_modelled_functions_are_the_source's :
   gen_src_rolling_shift_or_diff_1d = src_rolling_shift_or_diff_1d.
 Proof. exact (conj pin_rolling_max_or_min_1d (conj pin_min_or_max_and_position pin_rolling_shift_or_diff_1d)). Qed.
 Print Assumptions C09_modelled_functions_are_the_source's.
+
+(* the bit-exact transcription of the kernel in primitive floats (Model/RollingFloat.v) that C09's stream runs against the real
+   kernel: on the motivating example the value that has left the window leaves nothing behind *)
+From Coq Require Import PrimFloat.
+From GL Require Import Model.RollingFloat.
+Example C09_float_model_example :
+  same_list (rolling_float 2 1 false [1e16; 1; 1; 1; 1]%float) [1e16; 1e16; 2; 2; 2]%float = true /\
+  same_list (rolling_float 2 1 false [1; infinity; 1; 1; 1; 2]%float) [1; infinity; infinity; 2; 2; 3]%float = true.
+Proof. split; vm_compute; reflexivity. Qed.
